@@ -97,7 +97,10 @@ Bracket OneDimensionOptimizationTools::bracketMinimum(
       parameters[0].setValue(xu); fu = function.f(parameters);
       if (fu < bracket.c.f)
       {
-        NumTools::shift<double>(bracket.b.x, bracket.c.x, xu, bracket.c.x + NumConstants::GOLDEN_RATIO_PHI() * (bracket.c.x - bracket.b.x));
+        // The next trial point continues downhill beyond xu: it must be computed from the shifted points
+        // (c <- xu, b <- c), as the SHFT macro of the reference implementation does, not from the old ones.
+        const double xnext = xu + NumConstants::GOLDEN_RATIO_PHI() * (xu - bracket.c.x);
+        NumTools::shift<double>(bracket.b.x, bracket.c.x, xu, xnext);
         parameters[0].setValue(xu);
         NumTools::shift<double>(bracket.b.f, bracket.c.f, fu, function.f(parameters));
       }
